@@ -352,6 +352,22 @@ def chansExt : Ext
   | "hnd.cb", [d, ok], env => .ok .nil (logFx env (.cons (.str "cb") (.cons ((env.get "hnd").getD .nil) (.cons d (.cons ok .nil)))))
   | fn, _, _ => .stuck fn
 
+/-! ### nextWriter -/
+
+/-- `cur`: the connection's current epoch; `openFails` / `closeFails`: what gorilla answers. Every touch of the
+    connection and every use of the callback is recorded. -/
+def writerExt (cur : Nat) (openFails closeFails : Bool) : Ext
+  | "atomic.LoadUint64", [_], env => .ok (.int cur) env
+  | "cb", [w], env => .ok .nil (logFx env (.cons (.str "cb") w))
+  | "c.conn.NextWriter", [_], env =>
+    if openFails then .ok (.cons .nil (.cons (errVal "closed") .nil)) (logFx env (.str "conn.NextWriter"))
+    else .ok (.cons (.tag "wcl" .nil) (.cons .nil .nil)) (logFx env (.str "conn.NextWriter"))
+  | "wcl.Close", [], env => .ok (if closeFails then errVal "close" else .nil) (logFx env (.str "wcl.Close"))
+  | fn, _, _ => .stuck fn
+
+def writerEnv (epoch : Nat) : Env :=
+  [("epoch", .int epoch), ("io.Discard", .tag "discard" .nil), ("websocket.TextMessage", .int 1)]
+
 /-! ### client options -/
 
 /-- The client options that touch reconnection and keepalive. -/
